@@ -35,6 +35,12 @@ CHECKS = {
  "C14": dict(cat="exploration", technique="scripted-verdict hooks + wire/service inspection; reflection-generated recording plugins checking wrapper nesting per hook kind",
    text="(a) hooks return scripted verdicts (reject with reason codes / downgrade / drop / rewrite / replace) and after each request the wire (CONNACK, SUBACK, acks, deliveries) and the services (sessions, subscriptions, retained store) must reflect exactly that decision; (b) three plugins wrap every field of server.HookWrapper (filled by reflection, so new kinds are demanded automatically); for all 6 plugin orders a scripted session triggers every hook kind and the recorded trace must nest with the first plugin outermost, once per event.",
    note="trusted: mqttx; hooks rewriting a topic also set IterationOptions.TopicName; v3 CONNACK with out-of-spec code 0x87 is counted, not judged", ref="§5 C14"),
+ "C19": dict(cat="exploration", technique="differential credential oracle (independent hash computation) over a CONNECT matrix, account histories with restarts, and state-invariance monitor for unauthenticated traffic",
+   text="Thousands of CONNECT attempts (all versions, flags, near-miss credentials, AuthMethod/AuthData, TCP and WebSocket) against the auth plugin under each hash algorithm are judged by a model of the account set whose stored hashes are computed independently; accounts are changed through the plugin's own handlers and the broker is restarted on the same file; scripts of unauthenticated traffic must leave sessions, subscriptions, retained messages and an authenticated observer untouched and must never be answered.",
+   note="trusted: stdlib md5/sha256, x/crypto bcrypt, mqttx; CONNECT with an Authentication Method may be refused (only acceptance without valid credentials is a violation)", ref="§5 C19"),
+ "C20": dict(cat="exploration", technique="conservation monitor: broker statistics vs the scripted clients' wire log at logically reached quiescent points, plus gauge poller",
+   text="Seeded multi-client scenarios (all packet types incl. AUTH, QoS 0-2, exactly known drops of three kinds, reconnects, take-overs, terminations) are run against a real broker; at quiescence every per-client and global packet/byte counter, per-QoS message and drop counter, queued/in-flight gauge and connection/session counter is compared with ground truth derived from the clients' own packet logs and the scenario; globals are compared with the sum of the per-client values; gauges are sampled every 100 us for wrap below zero.",
+   note="trusted: mqttx sizes; quiescence via sentinel+PINGREQ barriers; 'sent' counters of displaced connections compared with >=; transient gauge states shorter than the sampling period can be missed", ref="§5 C20"),
 }
 
 def main():
